@@ -142,6 +142,13 @@ func (s *poolSim) boot() {
 	go func() {
 		s.gates.Enter(l)
 		s.gates.Point("boot")
+		// phase shift: the scheduler of this incarnation starts 7 ms after a
+		// simulator instant and the simulator moves on by 10 ms (see release),
+		// so scheduler checks (every 1 s), worker wake-ups (370 ms after a
+		// simulator instant) and simulator instants (250 ms apart) never fall
+		// into the same fake instant - timers due at the same instant are not
+		// one atomic step for synctest.Wait.
+		time.Sleep(7 * time.Millisecond)
 		if s.dead(inc) {
 			return
 		}
@@ -347,6 +354,9 @@ func (s *poolSim) release(p verifsim.Parked) {
 		s.r.Logf("release %s at %s", p.Label, p.Site)
 	}
 	s.gates.Release(p.Label)
+	if p.Site == "boot" {
+		time.Sleep(10 * time.Millisecond)
+	}
 	synctest.Wait()
 	s.disk.Disarm()
 }
@@ -478,7 +488,20 @@ func RunPoolScenario(r *verifsim.Run, sut PoolSUT) {
 		if len(parked) > 0 {
 			kinds = append(kinds, kind{"release", 10})
 		}
-		kinds = append(kinds, kind{"tick", 4})
+		// A worker parked between generation and the push into the pool must
+		// not see its context cancelled there: the pool's select between a
+		// free slot and ctx.Done() would then be a coin flip of the Go runtime
+		// (both outcomes are fine for the property, but not replayable). A
+		// cancel can only come from a scheduler check while the latch is held.
+		midSave := false
+		for _, p := range parked {
+			if p.Site == "disk-save" {
+				midSave = true
+			}
+		}
+		if !(midSave && inc.locks > 0) {
+			kinds = append(kinds, kind{"tick", 4})
+		}
 		if booted && active < maxCallers {
 			kinds = append(kinds, kind{"caller", 5})
 		}
